@@ -108,6 +108,11 @@ func c15XSystem(r *verifmc.Run, d c15XDef, msg []byte) *c15hist.System {
 func TestVerifC15_xof(t *testing.T) {
 	r := verifmc.Start(t, "C15", "xof")
 	defer r.Finish()
+	r.Set("xor_backend", c15XorBackend)
+	r.Count("backend:"+c15XorBackend, 1)
+	if r.Config() == "appengine" && c15XorBackend != "xor_generic" {
+		r.Vacuous("configuration appengine did not select the portable sponge back-end xor_generic.go")
+	}
 	if err := keccak.SelfTest(); err != nil {
 		t.Fatal(err)
 	}
